@@ -6,6 +6,8 @@
 #include <limits.h>
 #include <float.h>
 #include <stdint.h>
+#include <stdlib.h>
+#include <string.h>
 
 /* R6/R7: a throw ends the path; it is legal only when the spec's condition holds */
 #define VP_THROW(E) do { __CPROVER_assert(VP_MAY_THROW_##E, "throws " #E " only when the specification allows it"); \
@@ -49,4 +51,6 @@ short nondet_short(void);
 _Bool nondet_bool(void);
 double nondet_double(void);
 void *nondet_ptr(void);
+/* allocation never fails (global assumption, DESIGN.md 6) */
+static inline void *vp_malloc(size_t n) { void *p = malloc(n); __CPROVER_assume(p != NULL); return p; }
 #endif
